@@ -801,6 +801,55 @@ def r16_5(rep: Report, idx: Index) -> None:
     rep.extra['r16_5_attribute_reads_examined'] = n_checked
 
 
+def r16_9(rep: Report, idx: Index) -> None:
+    """values kept in the Flask session: what one helper stores under a key is what the other
+    computes with.  `session.get(key, 0) + 1` uses the default only when the key is *absent*; a
+    sibling that stores None under the same key makes the next read raise TypeError (a 500 on
+    every later request of that session)."""
+    rid = 'R16.9'
+
+    def key_form(fn: ast.AST, k: ast.AST) -> str:
+        if isinstance(k, ast.Name):
+            defs = [a for a in ast.walk(fn) if isinstance(a, ast.Assign) and norm(a.targets[0]) == k.id]
+            if len(defs) == 1:
+                k = defs[0].value
+        return norm(k)
+
+    stores: dict[str, list[tuple[str, ast.AST, str]]] = {}
+    reads: list[tuple[str, str, ast.AST, str]] = []
+    for rel in rep.repo.py_files('dashlive/server'):
+        tree = rep.repo.tree(rel)
+        for fn in [n for n in ast.walk(tree) if isinstance(n, (ast.FunctionDef, ast.AsyncFunctionDef))]:
+            for n in ast.walk(fn):
+                if isinstance(n, ast.Assign) and isinstance(n.targets[0], ast.Subscript) \
+                        and norm(n.targets[0].value) == 'flask.session':
+                    kind = 'None' if isinstance(n.value, ast.Constant) and n.value.value is None else 'value'
+                    stores.setdefault(key_form(fn, n.targets[0].slice), []).append(
+                        (f'{rel}::{fn.name}', n, kind))
+                if isinstance(n, ast.BinOp):
+                    for side in (n.left, n.right):
+                        k = None
+                        if isinstance(side, ast.Call) and call_name(side) == 'flask.session.get' and side.args:
+                            k = side.args[0]
+                        elif isinstance(side, ast.Subscript) and norm(side.value) == 'flask.session':
+                            k = side.slice
+                        if k is not None:
+                            reads.append((key_form(fn, k), f'{rel}::{fn.name}', n, norm(n)))
+    for key, construct, node, text in reads:
+        none_stores = [s for s in stores.get(key, []) if s[2] == 'None']
+        if none_stores:
+            rep.fail(rid, construct, f'arithmetic on session[{key[:40]}]',
+                     f'`{text}` computes with the session value, but {none_stores[0][0].split("::")[1]} '
+                     f'stores None under the same key (`{norm(none_stores[0][1])}`): the default of '
+                     '.get() applies only to a missing key, so the next request raises TypeError (500)',
+                     node, file=construct.split('::')[0])
+        else:
+            rep.ok(rid, construct, f'arithmetic on session[{key[:40]}]',
+                   f'{len(stores.get(key, []))} store(s) under the same key, none of None')
+    if not reads:
+        raise AnalysisError('no arithmetic on flask.session values found (the error counter moved?)')
+
+
 def analyse(rep: Report) -> None:
     rep.explanation = (
         'Interprocedural exception-escape analysis from every routed (handler, verb) entry point '
@@ -821,6 +870,7 @@ def analyse(rep: Report) -> None:
              floor=2)
     rep.rule('R16.7', 'synthetic errors fire exactly for the addressed request; no other literal 5xx',
              floor=10)
+    rep.rule('R16.9', 'session values are stored in the type their readers compute with', floor=1)
     idx = Index(rep.repo)
     cg = CallGraph(idx)
     validated_ok = r16_8(rep, idx)
@@ -830,6 +880,7 @@ def analyse(rep: Report) -> None:
     r16_4(rep, idx, cg)
     r16_6(rep, idx)
     r16_7(rep, idx)
+    r16_9(rep, idx)
     rep.assumptions = [
         'call edges are the resolved ones (CHA, typed locals, proxies); template calls are added '
         'for the three timeline generators; unresolved dynamic calls propagate nothing',
